@@ -91,7 +91,7 @@ def tree_engine(mode, tags, kinds, nq, nt):
             "classify": tree_cls(tags, kinds), "nontrivial": tree_nontrivial, "resets": ["scenario"]}
 
 
-CTRL_ACTIONS = ("scenario", "emptyrv", "stalelist", "srv", "cstart", "advance", "inject", "watch-errors", "watch-block", "burst-begin", "burst-end",
+CTRL_ACTIONS = ("scenario", "emptyrv", "stalelist", "overflow", "srv", "cstart", "advance", "inject", "watch-errors", "watch-block", "burst-begin", "burst-end",
                 "settle", "closeroot", "cancel", "end")
 
 
@@ -252,14 +252,17 @@ PROPS = {
         "assumptions": ["'eventually' = at the next quiescent point in virtual time"],
     },
     "C16": {
-        "engines": [tree_engine("step,burst,stall", ("C16",), ("mon",), 1500, 25000)],
+        "engines": [tree_engine("step,burst,stall", ("C16",), ("mon",), 1500, 25000),
+                    {"go": "typed", "bin": "kconc", "driver": "typed", "actions": ("scenario", "tstart", "tsrv", "end"),
+                     "args_quick": ["-n", "96"], "args_thorough": ["-n", "2400"], "classify": ctrl_cls(("C16",)), "resets": ["scenario"],
+                     "nontrivial": lambda l: l.startswith("(tobs") and ("(create (obj" in l or "(update (obj" in l or "(delete (obj" in l)}],
         "rule": "tree engine: monitors attached under every kind of publisher at arbitrary moments (before/after readiness, inside bursts), "
                 "handlers that block (stalled) and are released later, Close at every point. The recorded callback log must be OnInitialize "
                 "(with the publisher's cache at readiness) followed by one callback per event of the matching kind and object; nothing "
                 "before OnInitialize, nothing when never ready, callbacks never overlap (the handler counts concurrent entries). "
                 "Non-trivial: an observation that carried callbacks.",
         "trusted_base": TREE_TB,
-        "assumptions": ["untyped monitors here; typed monitors are covered with C20"],
+        "assumptions": ["typed monitors: the twelve typed packages' monitors are compared with the untyped one on the same server (typed engine)"],
     },
     "C03": {
         "engines": [ctrl_engine("", ("C03", "C02"), 600, 30000)],
